@@ -384,19 +384,39 @@ def cliquevector_cases(acc, dom, k):
         # combine: every key of `other` is added into the first containing clique, by name; unknown keys ignored
         for sub in tl:
             tgt = next((cl for cl in fam if set(sub) <= set(cl)), None)
-            base = CliqueVector({cl: mk(dom, cl, 3 + i * 17, 'signed') for i, cl in enumerate(fam)})
-            other = CliqueVector({tuple(sub): mk(dom, sub, 150, 'neginf')})
-            To = table(other[tuple(sub)])
-            base.combine(other)
-            for cl in fam:
-                if cl == tgt:
-                    ea, exp = expect_binary(cl, sub, T1[cl], To, dom, lambda a, b: a + b)
-                    cmp_tables(base[cl], ea, exp, 'combine(%r) into %r' % (sub, cl), fails)
-                    if tuple(base[cl].domain.attrs) != tuple(cl):
-                        fails.append('combine changed the axis order of %r' % (cl,))
+            for built in ('constructor', 'item-assignment'):
+                if built == 'constructor':
+                    base = CliqueVector({cl: mk(dom, cl, 3 + i * 17, 'signed') for i, cl in enumerate(fam)})
                 else:
-                    cmp_tables(base[cl], set(cl), T1[cl], 'combine(%r) must leave %r alone' % (sub, cl), fails)
-            acc.evals += 1
+                    # the same collection populated after construction (v = CliqueVector({}); v[cl] = f)
+                    base = CliqueVector({})
+                    for i, cl in enumerate(fam):
+                        base[cl] = mk(dom, cl, 3 + i * 17, 'signed')
+                other = CliqueVector({tuple(sub): mk(dom, sub, 150, 'neginf')})
+                To = table(other[tuple(sub)])
+                base.combine(other)
+                for cl in fam:
+                    if cl == tgt:
+                        ea, exp = expect_binary(cl, sub, T1[cl], To, dom, lambda a, b: a + b)
+                        cmp_tables(base[cl], ea, exp, 'combine(%r) into %r (%s-built)' % (sub, cl, built), fails)
+                        if tuple(base[cl].domain.attrs) != tuple(cl):
+                            fails.append('combine changed the axis order of %r' % (cl,))
+                    else:
+                        cmp_tables(base[cl], set(cl), T1[cl], 'combine(%r) must leave %r alone' % (sub, cl), fails)
+                acc.evals += 1
+        # a collection populated by item assignment behaves like the constructor-built one in every operation
+        va = CliqueVector({})
+        for cl in fam:
+            va[cl] = v1[cl]
+        for name, got, fn in [('+ (item-assigned)', va + v2, lambda a, b: a + b), ('*3 (item-assigned)', va * 3.0, lambda a, b: a * 3.0)]:
+            if set(got.keys()) != set(fam):
+                fails.append('CliqueVector %s: keys %r' % (name, list(got.keys())))
+                continue
+            for cl in fam:
+                cmp_tables(got[cl], set(cl), {a: fn(T1[cl][a], T2[cl][a]) for a in T1[cl]}, 'CliqueVector %s at %r' % (name, cl), fails, 1e-12)
+        if not same(float(va.dot(v2)), ed, 1e-12) or va.size() != v1.size():
+            fails.append('CliqueVector dot/size differ for an item-assigned collection')
+        acc.evals += 3
         # constructors
         z, o, u = CliqueVector.zeros(dom, fam), CliqueVector.ones(dom, fam), CliqueVector.uniform(dom, fam)
         for cl in fam:
